@@ -434,11 +434,12 @@ def strip_markers(doc):
 class Caller:
     """kwargs in zeep's conventions; `style` decides dict vs value object per struct and how absence is spelt"""
 
-    def __init__(self, src, zs, rng, style="mixed"):
+    def __init__(self, src, zs, rng, style="mixed", explicit=False):
         self.s = src
         self.zs = zs
         self.rng = rng
         self.style = style
+        self.explicit = explicit          # absent things are simply omitted, nil is always the Nil marker
 
     def multiple(self, p):
         return p.get("max", 1) != 1
@@ -465,7 +466,7 @@ class Caller:
         from zeep import xsd
         if "nil" in it:
             # an explicit Nil marker; for a required single nillable element outside a choice None means the same
-            if p.get("min", 1) >= 1 and p.get("max", 1) == 1 and not in_choice and self.rng.random() < 0.5:
+            if p.get("min", 1) >= 1 and p.get("max", 1) == 1 and not in_choice and not self.explicit and self.rng.random() < 0.5:
                 return None
             return xsd.Nil
         if "leaf" in it:
@@ -479,16 +480,16 @@ class Caller:
         if k == "elem":
             vals = [self.item_value(it, p, in_choice) for it in v["items"]]
             if self.multiple(p):
-                if not vals and self.rng.random() < 0.5:
+                if not vals and (self.explicit or self.rng.random() < 0.5):
                     return {}
                 return {n: vals}
             if not vals:
-                return {} if self.rng.random() < 0.5 else {n: None}
+                return {} if (self.explicit or self.rng.random() < 0.5) else {n: None}
             return {n: vals[0]}
         if k == "any":
             nodes = [copy.deepcopy(x) for x in v["nodes"]]
             if self.multiple(p):
-                return {n: nodes} if nodes or self.rng.random() < 0.5 else {}
+                return {n: nodes} if nodes or (not self.explicit and self.rng.random() < 0.5) else {}
             return {n: nodes[0]} if nodes else {}
         if k == "group":
             if self.multiple(p):
